@@ -10,7 +10,10 @@ def _one(args):
     resource.setrlimit(resource.RLIMIT_AS, (4 << 30, 4 << 30))
     from harness import cluster_batteries as CB
     try:
-        p, st = CB.run_case(seed, os.path.join(work, 'w%d' % seed))
+        if seed == -1:
+            p, st = CB.run_scripted(os.path.join(work, 'scripted'))
+        else:
+            p, st = CB.run_case(seed, os.path.join(work, 'w%d' % seed))
         return seed, p, st
     except Exception:
         import traceback
@@ -24,7 +27,7 @@ def run(ctx, want_lock, n=None):
     work = os.path.join(ctx.work, 'cluster')
     os.makedirs(work, exist_ok=True)
     with mp.get_context('fork').Pool(min(12, n)) as pool:
-        res = pool.map(_one, [(base + i, work) for i in range(n)])
+        res = pool.map(_one, [(base + i, work) for i in range(n)] + [(-1, work)])
     tot = {}
     hits = 0
     for seed, problems, st in res:
